@@ -657,4 +657,300 @@ theorem hsum_windows {α : Type} (c D : Nat) (dg : ℕ → α → ℤ) (pairs : 
 end Windows
 
 
+/-! ## `msm_bigint_wnaf` -/
+
+/-- the digit string of a scalar (total version of `makeDigits`) -/
+def digitsOf (c nb : Nat) (s : List Nat) : List Int :=
+  match makeDigits s c nb with
+  | .ok ds => ds
+  | .panic => []
+
+theorem digitsOf_spec (c nb N : Nat) (s : List Nat) (hc1 : 1 ≤ c) (hc : c ≤ 62) (hnb : 0 < nb)
+    (hnbN : nb ≤ 64 * N) (hs : WF s) (hN : s.length = N) :
+    makeDigits s c nb = .ok (digitsOf c nb s) ∧ (digitsOf c nb s).length = divCeil nb c ∧
+      digitsValueW c (digitsOf c nb s) = ((value s % 2 ^ (c * divCeil nb c) : ℕ) : ℤ) ∧
+      DigitsOK c (digitsOf c nb s) := by
+  have hne : nb ≠ 0 := by omega
+  obtain ⟨ds, h1, h2, h3, h4⟩ := makeDigits_spec s c nb hs hc1 hc (by rw [if_neg hne, hN]; exact hnbN)
+  rw [if_neg hne] at h2 h3
+  have : digitsOf c nb s = ds := by unfold digitsOf; rw [h1]
+  rw [this]
+  exact ⟨h1, h2, h3, h4⟩
+
+theorem zip_take_min {α β : Type} (l₁ : List α) (l₂ : List β) :
+    (l₁.take (min l₂.length l₁.length)).zip (l₂.take (min l₂.length l₁.length)) = l₁.zip l₂ := by
+  rw [Nat.min_comm]
+  exact List.zip_eq_zip_take_min.symm
+
+section Wnaf
+variable {G : Type} [AddCommGroup G]
+
+theorem msmBigintWnaf_nb0 (bases : List G) (ks : List (List Nat)) :
+    msmBigintWnaf 0 bases ks = .panic := by
+  unfold msmBigintWnaf
+  simp only []
+  have hc := windowSize_ge (min bases.length ks.length)
+  rw [divCeil_zero _ (by omega)]
+  cases omapM (fun s => makeDigits s (windowSize (min bases.length ks.length)) 0)
+      (List.take (min bases.length ks.length) ks) with
+  | panic => rfl
+  | ok ds => rfl
+
+theorem msmBigintWnaf_spec (nb N : Nat) (bases : List G) (ks : List (List Nat))
+    (hnb : 0 < nb) (hnbN : nb ≤ 64 * N) (hks : ∀ s ∈ ks, WF s ∧ s.length = N)
+    (hsize : min bases.length ks.length < 2 ^ 64) :
+    msmBigintWnaf nb bases ks = .ok
+      ((ks.zip bases).map (fun p =>
+        (value p.1 % 2 ^ (windowSize (min bases.length ks.length)
+          * divCeil nb (windowSize (min bases.length ks.length)))) • p.2)).sum := by
+  unfold msmBigintWnaf
+  simp only []
+  generalize hsz : min bases.length ks.length = size at *
+  have hc3 := windowSize_ge size
+  have hc46 := windowSize_le size hsize
+  generalize hcdef : windowSize size = c at *
+  have hc1 : 1 ≤ c := by omega
+  have hc62 : c ≤ 62 := by omega
+  have hD : 0 < divCeil nb c := divCeil_pos hnb (by omega)
+  generalize hDdef : divCeil nb c = D at *
+  have hsc : ∀ s ∈ ks.take size, WF s ∧ s.length = N := fun s hs => hks s (List.mem_of_mem_take hs)
+  have hdig : ∀ s ∈ ks.take size, makeDigits s c nb = .ok (digitsOf c nb s) ∧
+      (digitsOf c nb s).length = D ∧
+      digitsValueW c (digitsOf c nb s) = ((value s % 2 ^ (c * D) : ℕ) : ℤ) ∧
+      DigitsOK c (digitsOf c nb s) := by
+    intro s hs
+    have := digitsOf_spec c nb N s hc1 hc62 hnb hnbN (hsc s hs).1 (hsc s hs).2
+    rwa [hDdef] at this
+  rw [omapM_ok _ (digitsOf c nb) _ (fun s hs => (hdig s hs).1), obind_ok]
+  rw [chunksOf_flatten D hD _ (by
+    intro l hl
+    obtain ⟨s, hs, rfl⟩ := List.mem_map.mp hl
+    exact (hdig s hs).2.1)]
+  -- the windows
+  have hwin : ∀ i ∈ List.range D,
+      wnafWindow c i (((ks.take size).map (digitsOf c nb)).zip (bases.take size))
+        = .ok ((((ks.take size).map (digitsOf c nb)).zip (bases.take size)).map
+            (fun p => p.1.getD i 0 • p.2)).sum := by
+    intro i hi
+    apply wnafWindow_spec
+    intro p hp
+    obtain ⟨s, hs, hps⟩ := List.mem_map.mp (List.of_mem_zip hp).1
+    obtain ⟨_, hlen, _, hok⟩ := hdig s hs
+    rw [← hps]
+    have hiD : i < (digitsOf c nb s).length := by rw [hlen]; exact List.mem_range.mp hi
+    refine ⟨_, List.getElem?_eq_getElem hiD, ?_⟩
+    exact hok.abs_le hc1 _ (List.getElem_mem hiD)
+  rw [omapM_ok _ _ _ hwin, obind_ok]
+  rw [combine_ok _ _ (by
+    intro h
+    have := congrArg List.length h
+    simp at this; omega)]
+  rw [hsum_windows c D (fun i (ds : List Int) => ds.getD i 0)]
+  rw [List.zip_map_left, List.map_map, ← hsz, zip_take_min]
+  refine congrArg Outcome.ok (congrArg List.sum (List.map_congr_left ?_))
+  intro p hp
+  have hp1 : p.1 ∈ ks.take size := by
+    have : p ∈ (ks.take size).zip (bases.take size) := by
+      rw [← hsz, zip_take_min]; exact hp
+    exact (List.of_mem_zip this).1
+  obtain ⟨_, hlen, hval, _⟩ := hdig p.1 hp1
+  simp only [Function.comp_apply, Prod.map_fst, Prod.map_snd, id_eq]
+  have hr := range_map_getD (digitsOf c nb p.1)
+  rw [hlen] at hr
+  rw [hr, hval, natCast_zsmul]
+
+end Wnaf
+
+
+/-! ## plain bucket method: private `msm_bigint` -/
+
+theorem isZero_of_value_zero (a : List Nat) (h : value a = 0) : isZero a = true := by
+  induction a with
+  | nil => rfl
+  | cons l ls ih =>
+    rw [value] at h
+    have h1 : l = 0 := by omega
+    have h2 : value ls = 0 := by
+      have : B * value ls = 0 := by omega
+      rcases Nat.mul_eq_zero.mp this with hB | hv
+      · have := B_pos; omega
+      · exact hv
+    have := ih h2
+    unfold isZero at this ⊢
+    simp [List.all_cons, h1, this]
+
+theorem shr_head (s : List Nat) (n : Nat) (hs : WF s) (hne : s ≠ []) :
+    (shr s n)[0]? = some (value s / 2 ^ n % B) := by
+  obtain ⟨h1, h2, h3⟩ := shr_spec s n hs
+  have hlen : 0 < (shr s n).length := by
+    rw [h3]; exact List.length_pos_of_ne_nil hne
+  have := value_digit (shr s n) h2 0
+  rw [pow_zero, Nat.div_one, h1, List.getD_eq_getElem _ _ hlen] at this
+  rw [List.getElem?_eq_getElem hlen, this]
+
+theorem natDigits_value (c D v : Nat) :
+    digitsValueW c ((List.range D).map (fun i => ((v / 2 ^ (i * c) % 2 ^ c : ℕ) : ℤ)))
+      = ((v % 2 ^ (c * D) : ℕ) : ℤ) := by
+  induction D generalizing v with
+  | zero => simp [digitsValueW, Nat.mod_one]
+  | succ D ih =>
+    rw [List.range_succ_eq_map, List.map_cons, List.map_map, digitsValueW]
+    have e : ((fun i => ((v / 2 ^ (i * c) % 2 ^ c : ℕ) : ℤ)) ∘ Nat.succ)
+        = fun i => ((v / 2 ^ c / 2 ^ (i * c) % 2 ^ c : ℕ) : ℤ) := by
+      funext i
+      simp only [Function.comp_apply, Nat.succ_eq_add_one]
+      rw [Nat.add_mul, Nat.one_mul, Nat.add_comm (i * c) c, pow_add, Nat.div_div_eq_div_mul]
+    rw [e, ih, Nat.zero_mul, pow_zero, Nat.div_one, Nat.mul_succ, Nat.add_comm (c * D) c, pow_add,
+      Nat.mod_mul]
+    push_cast
+    rfl
+
+section Plain
+variable {G : Type} [AddCommGroup G]
+
+theorem sum_map_filter {α : Type} (q : α → Bool) (f : α → G) (l : List α)
+    (h : ∀ x ∈ l, q x = false → f x = 0) : ((l.filter q).map f).sum = (l.map f).sum := by
+  induction l with
+  | nil => rfl
+  | cons a l ih =>
+    have ih := ih (fun x hx => h x (by simp [hx]))
+    cases hq : q a with
+    | true => rw [List.filter_cons_of_pos hq]; simp [ih]
+    | false =>
+      rw [List.filter_cons_of_neg (by simp [hq])]
+      simp [ih, h a (by simp) hq]
+
+/-- the plain bucket-filling loop: no panic, and `res + Σ_j (j+1)•bucket[j]` grows by
+    `Σ digit_{wStart}(s) • P` -/
+theorem plainFill_spec (c wStart : Nat) (one : List Nat) (hc1 : 1 ≤ c) (hc : c ≤ 64)
+    (pairs : List (List Nat × G)) (res : G) (bs : List G) (hbs : bs.length = 2 ^ c - 1)
+    (h : ∀ p ∈ pairs, WF p.1 ∧ p.1 ≠ [] ∧ (p.1 = one → value p.1 = 1)) :
+    ∃ res' bs', plainFill c wStart one res bs pairs = .ok (res', bs') ∧ bs'.length = bs.length ∧
+      res' + wsum bs' = res + wsum bs
+        + (pairs.map (fun p => (value p.1 / 2 ^ wStart % 2 ^ c) • p.2)).sum := by
+  induction pairs generalizing res bs with
+  | nil => exact ⟨res, bs, rfl, rfl, by simp⟩
+  | cons p ps ih =>
+    obtain ⟨scalar, base⟩ := p
+    obtain ⟨hwf, hne, h1⟩ := h (scalar, base) (by simp)
+    have hrest : ∀ p ∈ ps, WF p.1 ∧ p.1 ≠ [] ∧ (p.1 = one → value p.1 = 1) :=
+      fun p hp => h p (by simp [hp])
+    have h2c : 2 ≤ 2 ^ c := by
+      calc 2 = 2 ^ 1 := rfl
+        _ ≤ 2 ^ c := Nat.pow_le_pow_right (by omega) hc1
+    rw [plainFill]
+    simp only [List.map_cons, List.sum_cons]
+    by_cases hone : scalar = one
+    · rw [if_pos hone]
+      have hv : value scalar = 1 := h1 hone
+      simp only [hv]
+      by_cases hw0 : wStart = 0
+      · rw [if_pos hw0]
+        obtain ⟨res', bs', e1, e2, e3⟩ := ih (res + base) bs hbs hrest
+        refine ⟨res', bs', e1, e2, ?_⟩
+        rw [e3, hw0, pow_zero, Nat.div_one, Nat.mod_eq_of_lt (by omega), one_smul]
+        abel
+      · rw [if_neg hw0]
+        obtain ⟨res', bs', e1, e2, e3⟩ := ih res bs hbs hrest
+        refine ⟨res', bs', e1, e2, ?_⟩
+        have : 1 / 2 ^ wStart = 0 := by
+          apply Nat.div_eq_of_lt
+          calc 1 < 2 ^ 1 := by norm_num
+            _ ≤ 2 ^ wStart := Nat.pow_le_pow_right (by omega) (by omega)
+        rw [e3, this, Nat.zero_mod, zero_smul, zero_add]
+    · rw [if_neg hone, shr_head scalar wStart hwf hne, ofOption_some, obind_ok]
+      have hmm : value scalar / 2 ^ wStart % B % (1 <<< c) = value scalar / 2 ^ wStart % 2 ^ c := by
+        rw [Nat.shiftLeft_eq, Nat.one_mul]
+        apply Nat.mod_mod_of_dvd
+        exact Nat.pow_dvd_pow 2 hc
+      simp only [hmm]
+      generalize value scalar / 2 ^ wStart % 2 ^ c = d at *
+      have hd : d < 2 ^ c := by
+        rw [← hmm]; rw [Nat.shiftLeft_eq, Nat.one_mul]; exact Nat.mod_lt _ (by omega)
+      by_cases hd0 : d = 0
+      · rw [if_neg (by simp [hd0])]
+        obtain ⟨res', bs', e1, e2, e3⟩ := ih res bs hbs hrest
+        refine ⟨res', bs', e1, e2, ?_⟩
+        rw [e3, hd0, zero_smul, zero_add]
+      · rw [if_pos hd0]
+        obtain ⟨bs1, m1, m2, _, m4⟩ := modifyAt_spec (· + base) base (fun _ => rfl) bs (d - 1)
+          (by omega)
+        rw [m1, ofOption_some, obind_ok]
+        obtain ⟨res', bs', e1, e2, e3⟩ := ih res bs1 (by rw [m2, hbs]) hrest
+        refine ⟨res', bs', e1, by rw [e2, m2], ?_⟩
+        rw [e3, m4, Nat.sub_add_cancel (by omega)]
+        abel
+
+theorem plainWindow_spec (c wStart : Nat) (one : List Nat) (hc1 : 1 ≤ c) (hc : c ≤ 64)
+    (pairs : List (List Nat × G))
+    (h : ∀ p ∈ pairs, WF p.1 ∧ p.1 ≠ [] ∧ (p.1 = one → value p.1 = 1)) :
+    plainWindow c wStart one pairs
+      = .ok (pairs.map (fun p => (value p.1 / 2 ^ wStart % 2 ^ c) • p.2)).sum := by
+  unfold plainWindow
+  obtain ⟨res', bs', e1, _, e3⟩ := plainFill_spec c wStart one hc1 hc pairs (0 : G)
+    (List.replicate ((1 <<< c) - 1) (0 : G)) (by simp [Nat.shiftLeft_eq]) h
+  rw [e1, obind_ok, runningSum_wsum, e3, wsum_replicate_zero]
+  simp
+
+theorem msmBigintPlain_nb0 (one : List Nat) (bases : List G) (ks : List (List Nat)) :
+    msmBigintPlain 0 one bases ks = .panic := by
+  unfold msmBigintPlain windowStarts
+  simp only []
+  have hc := windowSize_ge (min bases.length ks.length)
+  rw [divCeil_zero _ (by omega)]
+  rfl
+
+theorem msmBigintPlain_spec (nb : Nat) (one : List Nat) (bases : List G) (ks : List (List Nat))
+    (hnb : 0 < nb) (hone : value one ≤ 1) (hks : ∀ s ∈ ks, WF s)
+    (hsize : min bases.length ks.length < 2 ^ 64) :
+    msmBigintPlain nb one bases ks = .ok
+      ((ks.zip bases).map (fun p =>
+        (value p.1 % 2 ^ (windowSize (min bases.length ks.length)
+          * divCeil nb (windowSize (min bases.length ks.length)))) • p.2)).sum := by
+  unfold msmBigintPlain windowStarts
+  simp only []
+  rw [zip_take_min]
+  have hc3 := windowSize_ge (min bases.length ks.length)
+  have hc46 := windowSize_le _ hsize
+  generalize windowSize (min bases.length ks.length) = c at *
+  have hD : 0 < divCeil nb c := divCeil_pos hnb (by omega)
+  generalize divCeil nb c = D at *
+  generalize hpairs : (ks.zip bases).filter (fun sb => !isZero sb.1) = pairs
+  have hp : ∀ p ∈ pairs, WF p.1 ∧ p.1 ≠ [] ∧ (p.1 = one → value p.1 = 1) := by
+    intro p hp
+    rw [← hpairs, List.mem_filter] at hp
+    obtain ⟨hmem, hnz⟩ := hp
+    have hnz' : isZero p.1 = false := by simpa using hnz
+    refine ⟨hks _ (List.of_mem_zip hmem).1, ?_, ?_⟩
+    · intro h; rw [h] at hnz'; simp [isZero] at hnz'
+    · intro h1
+      have : value p.1 ≠ 0 := by
+        intro h0; rw [isZero_of_value_zero _ h0] at hnz'; simp at hnz'
+      rw [h1] at this ⊢
+      omega
+  have hwin : ∀ wStart ∈ (List.range D).map (· * c), plainWindow c wStart one pairs
+      = .ok (pairs.map (fun p => (value p.1 / 2 ^ wStart % 2 ^ c) • p.2)).sum :=
+    fun wStart _ => plainWindow_spec c wStart one (by omega) (by omega) pairs hp
+  rw [omapM_ok _ _ _ hwin, obind_ok, List.map_map]
+  rw [combine_ok _ _ (by
+    intro h
+    have := congrArg List.length h
+    simp at this; omega)]
+  have e : ((fun wStart => (pairs.map (fun p => (value p.1 / 2 ^ wStart % 2 ^ c) • p.2)).sum)
+        ∘ fun x => x * c)
+      = fun i => (pairs.map (fun p =>
+          (fun (i : ℕ) (s : List Nat) => ((value s / 2 ^ (i * c) % 2 ^ c : ℕ) : ℤ)) i p.1 • p.2)).sum := by
+    funext i
+    simp only [Function.comp_apply, natCast_zsmul]
+  rw [e, hsum_windows c D (fun (i : ℕ) (s : List Nat) => ((value s / 2 ^ (i * c) % 2 ^ c : ℕ) : ℤ))]
+  simp only [natDigits_value, natCast_zsmul]
+  rw [← hpairs]
+  refine congrArg Outcome.ok (sum_map_filter _ _ _ ?_)
+  intro p _ hz
+  have hz' : isZero p.1 = true := by simpa using hz
+  rw [isZero_value hz', Nat.zero_mod, zero_smul]
+
+end Plain
+
+
 end Ark.Msm
